@@ -129,7 +129,7 @@ Example C02_domain_nonempty :
      mkStep exC 3 (ctC 3) (OnNames ["k"]) "semi" false None]
     (FSelect [(UCol (RName "k"), "k"); (UCol (RDf 1 3 false "v"), "bv"); (UBin Add (UCol (RDf 0 1 false "v")) (ULit (VInt 1)), "av1")]) = true
   /\ prog_dom gen_cfg exA 1 ctA [mkStep exB 2 (ctB 1) (OnNames ["k"; "v"]) "full" false None] FNone = true
-  /\ prog_dom gen_cfg exA 1 ctA [mkStep exB 2 (ctB 1) OnNone "left_semi" false None; mkStep exC 3 (ctC 2) OnNone "FULL" false None] FNone = true
+  /\ prog_dom gen_cfg exA 1 ctA [mkStep exB 2 (ctB 1) OnNone "left_semi" false None; mkStep exD 4 (ctD 2) OnNone "FULL" false None] FNone = true
   /\ prog_dom gen_cfg exA 1 ctA [mkStep exB 2 (ctB 1) OnNone "cross" false None] (FWhere (UBin Gt (UCol (RDf 1 3 false "v")) (ULit (VInt 100)))) = true
   /\ right_dom gen_cfg exA 1 ctA (mkStep exD 4 (ctD 1) (OnExprs [UBin Eq (UCol (RDf 0 1 false "k")) (UCol (RDf 1 7 false "k2"))]) "right_outer" false None) = true
   /\ right_dom gen_cfg exA 1 ctA (mkStep exC 3 (ctC 1) (OnNames ["k"]) "right" false None) = true.
